@@ -410,10 +410,12 @@ func (dht *FullRT) runCrawler(ctx context.Context) {
 		dht.peerAddrsLk.Lock()
 		dht.peerAddrs = peerAddrs
 		dht.peerAddrsLk.Unlock()
+		verifYield("swap:addrs-installed")
 
 		dht.kMapLk.Lock()
 		dht.keyToPeerMap = kPeerMap
 		dht.kMapLk.Unlock()
+		verifYield("swap:keymap-installed")
 
 		dht.rtLk.Lock()
 		dht.rt = newRt
